@@ -400,7 +400,7 @@ func TestC20(t *testing.T) {
 		}
 		rec.Sample("shuffle", Case{Kind: "shuffle", N: 4095, Epoch: 1 << 63})
 		// files
-		rec.Rapid(t, "file", evid.Pick(1200, 20000), func(t *rapid.T) {
+		rec.Rapid(t, "file", evid.Pick(4000, 60000), func(t *rapid.T) {
 			c := Case{Kind: "file", Epoch: uint64(gen.Draw(t, 0, 1000, "epoch")), Seed: gen.Draw(t, 0, 1<<20, "seed")}
 			if gen.Chance(t, 1, 8, "bigEpoch") {
 				c.Epoch = uint64(gen.Draw(t, 0, 1<<30, "epochHi")) << 20
